@@ -2,8 +2,10 @@ package simrt_test
 
 import (
 	"fmt"
+	"sync"
 	"testing"
 	"time"
+	"unsafe"
 
 	simrt "verif/sim/rt"
 	"verif/sim/ssync"
@@ -144,6 +146,71 @@ func TestBufferedFIFOWithParkedSenders(t *testing.T) {
 		o := s.Run()
 		if fmt.Sprint(got) != "[1 2 3]" || o.Stuck {
 			t.Fatalf("seed %d got %v", seed, got)
+		}
+	}
+}
+
+// OnSend reports the step at which the channel accepted the value: for a sender
+// that had to park that is the receiver's step, before the sender runs again.
+func TestOnSendStep(t *testing.T) {
+	for seed := uint64(1); seed <= 200; seed++ {
+		type rec struct {
+			v    int
+			step int64
+		}
+		var mu sync.Mutex
+		var log []rec
+		cfg := simrt.Config{Seed: seed, Strategy: simrt.Strategy(seed % 4), StickyQ: 0.5, PCTDepth: 3, PCTSteps: 40, StopOnPanic: true}
+		cfg.OnSend = func(_ unsafe.Pointer, v any, step int64) {
+			mu.Lock()
+			log = append(log, rec{v.(int), step})
+			mu.Unlock()
+		}
+		s := simrt.New(cfg)
+		un := make(chan int)
+		buf := make(chan int, 1)
+		var before, after, recvAt [4]int64
+		s.Go(func() {
+			before[0] = simrt.Stamp()
+			simrt.Send(un, 1)
+			after[0] = simrt.Stamp()
+			before[1] = simrt.Stamp()
+			simrt.Send(buf, 2)
+			after[1] = simrt.Stamp()
+			before[2] = simrt.Stamp()
+			simrt.Send(buf, 3) // parks unless the receiver was quick
+			after[2] = simrt.Stamp()
+			sel := simrt.NewSelect(1, false)
+			before[3] = simrt.Stamp()
+			simrt.SelSend(sel, 0, un, 4)
+			sel.Wait()
+			after[3] = simrt.Stamp()
+		})
+		s.Go(func() {
+			simrt.Yield()
+			for i, c := range []chan int{un, buf, buf, un} {
+				simrt.Recv(c)
+				recvAt[i] = simrt.Stamp()
+			}
+		})
+		out := s.Run()
+		if out.Stuck || len(out.Panics) > 0 || len(log) != 4 {
+			t.Fatalf("seed %d: stuck=%v panics=%v log=%v", seed, out.Stuck, out.Panics, log)
+		}
+		for i, r := range log {
+			if r.v != i+1 {
+				t.Fatalf("seed %d: order %v", seed, log)
+			}
+			if r.step < before[i] || r.step > after[i] {
+				t.Fatalf("seed %d: send %d accepted at step %d outside the call [%d,%d]", seed, r.v, r.step, before[i], after[i])
+			}
+			// unbuffered: accepted exactly when received
+			if (i == 0 || i == 3) && r.step != recvAt[i] && r.step > recvAt[i] {
+				t.Fatalf("seed %d: unbuffered send %d accepted at %d, received at %d", seed, r.v, r.step, recvAt[i])
+			}
+			if r.step > recvAt[i] {
+				t.Fatalf("seed %d: send %d accepted at %d after it was received at %d", seed, r.v, r.step, recvAt[i])
+			}
 		}
 	}
 }
